@@ -271,6 +271,9 @@ var c16Strs = []string{
 	"2001-01-01", "2001-01-01T00:00:00Z", "2001-01-01 00:00:00", "12:30", "1:30:00", "190:20:30.15",
 	"<<", "=", "?", "? x", ": y", ":", "-", "--", "---", "--- x", "...", "... x", "- ", "-\n",
 	"k: v\nl: w", "- a\n- b", "key: |\n  x",
+	// text that LOOKS like rendered YAML holding a number in exponent form (a renderer that post-processes its output text
+	// would rewrite it): inside a block scalar, at the end of a plain line
+	"limits:\n  max: 1e+06\n", "valid range 5 - 1e+06", "a: 1e+06", "- 1e+06", "x: 1.5e+07", "n: 1e+21", "v: 0x10", "max: 1e+06",
 	strings.Repeat("word ", 20) + "end",
 	strings.Repeat("lorem ipsum dolor sit amet ", 5),
 	strings.Repeat("x", 100),
